@@ -362,7 +362,15 @@ func (s *c02Session) coincidence(segs []seg) bool {
 	return false
 }
 
+// c02Case runs the case twice: the reader uses ReadMessage, and the split API (ReadHeader, then
+// ReadBody with a buffer of the announced size), which is what NoiseConn.ReadNextHeader /
+// ReadNextBody expose. Both must behave alike; the model line is emitted once.
 func c02Case(r *Recorder, kk bool, lens []int, mk func(s *c02Session, honest []seg) []seg, class string, seed int) {
+	c02CaseMode(r, kk, lens, mk, class, seed, false)
+	c02CaseMode(r, kk, lens, mk, class, seed, true)
+}
+
+func c02CaseMode(r *Recorder, kk bool, lens []int, mk func(s *c02Session, honest []seg) []seg, class string, seed int, split bool) {
 	s, err := newC02Session(kk, lens, seed)
 	if err != nil {
 		r.Violate("C02/setup", err.Error(), lens)
@@ -386,7 +394,16 @@ func c02Case(r *Recorder, kk bool, lens []int, mk func(s *c02Session, honest []s
 	var returned [][]byte
 	errs := 0
 	for wire.Len() > 0 && errs < 3 && len(results) < 2000 {
-		got, err := s.reader.ReadMessage(wire)
+		var got []byte
+		var err error
+		if split {
+			var n uint32
+			if n, err = s.reader.ReadHeader(wire); err == nil {
+				got, err = s.reader.ReadBody(wire, make([]byte, n))
+			}
+		} else {
+			got, err = s.reader.ReadMessage(wire)
+		}
 		if err != nil {
 			results = append(results, "err")
 			errs++
@@ -417,7 +434,7 @@ func c02Case(r *Recorder, kk bool, lens []int, mk func(s *c02Session, honest []s
 	for i, g := range segs {
 		strs[i] = g.String()
 	}
-	desc := map[string]interface{}{"kk": kk, "lens": lens, "wire": strings.Join(strs, ","), "results": results}
+	desc := map[string]interface{}{"kk": kk, "lens": lens, "wire": strings.Join(strs, ","), "results": results, "split_read_api": split}
 	if !okPrefix {
 		r.Violate("C02/returned-not-prefix", fmt.Sprintf("reader returned %d records that are not a prefix of the %d written (wire %s)",
 			len(returned), len(s.plains), strings.Join(strs, ",")), desc)
@@ -434,7 +451,7 @@ func c02Case(r *Recorder, kk bool, lens []int, mk func(s *c02Session, honest []s
 	if lensStr == "" {
 		lensStr = "none"
 	}
-	if !coinc {
+	if !coinc && !split {
 		r.Emit(fmt.Sprintf("rec.read 0 %s %s", lensStr, segStr), out)
 	}
 	edited := len(segs) != len(honest)
@@ -443,7 +460,7 @@ func c02Case(r *Recorder, kk bool, lens []int, mk func(s *c02Session, honest []s
 			edited = true
 		}
 	}
-	r.Case(fmt.Sprintf("%v:%v:%s", kk, lens, segStr), edited, class)
+	r.Case(fmt.Sprintf("%v:%v:%s:split=%v", kk, lens, segStr, split), edited, class)
 	if len(r.Samples) < 4 && edited {
 		r.Samples = append(r.Samples, desc)
 	}
